@@ -138,7 +138,10 @@ pub fn run_spline_job_t<T: Fl>(job: &SplineJob, want: Want, out: &mut JobOut) {
         .into_iter()
         .filter(|l| vec_exact::<T>(&l.y).is_some())
         .collect();
-    let lt: Vec<Vec<T>> = lanes.iter().map(|l| vec_exact::<T>(&l.y).unwrap()).collect();
+    let lt: Vec<Vec<T>> = lanes
+        .iter()
+        .map(|l| vec_exact::<T>(&l.y).unwrap())
+        .collect();
     let nl = lanes.len();
     let data: Array2<T> = lanes_matrix(&lt);
     let key0 = format!("{}:{}", T::NAME, job.key());
@@ -215,7 +218,11 @@ pub fn run_spline_job_t<T: Fl>(job: &SplineJob, want: Want, out: &mut JobOut) {
             .collect();
         let mut scale_a: f64 = 0.0;
         for p in &pieces {
-            scale_a = scale_a.max(p.y0.abs()).max(p.y1.abs()).max(p.a.abs()).max(p.b.abs());
+            scale_a = scale_a
+                .max(p.y0.abs())
+                .max(p.y1.abs())
+                .max(p.a.abs())
+                .max(p.b.abs());
         }
         // the exact reference, when in reach
         let rs = if want.exact && n <= want.exact_max_n {
@@ -235,7 +242,11 @@ pub fn run_spline_job_t<T: Fl>(job: &SplineJob, want: Want, out: &mut JobOut) {
             let mut bad: Option<String> = None;
             for i in 0..n {
                 // (i) interpolation
-                let got = if i < n - 1 { s(i, 0, j) } else { s(n - 2, den, j) };
+                let got = if i < n - 1 {
+                    s(i, 0, j)
+                } else {
+                    s(n - 2, den, j)
+                };
                 let e = (got - lane.y[i]).abs();
                 out.maximum("interp_err_over_eps_scale", e / (eps * scale));
                 out.evals += 1;
@@ -302,11 +313,7 @@ pub fn run_spline_job_t<T: Fl>(job: &SplineJob, want: Want, out: &mut JobOut) {
                 out.nontrivial += 1;
             }
             if let Some(w) = bad {
-                out.violate(
-                    lkey.clone(),
-                    w,
-                    case_json::<T>(job, Some(lane), Some(cond)),
-                );
+                out.violate(lkey.clone(), w, case_json::<T>(job, Some(lane), Some(cond)));
                 continue;
             }
         }
@@ -320,7 +327,9 @@ pub fn run_spline_job_t<T: Fl>(job: &SplineJob, want: Want, out: &mut JobOut) {
                 out.maximum("end_residual_over_tol", e / tol);
                 out.evals += 1;
                 if !(e <= tol) && bad.is_none() {
-                    bad = Some(format!("{name}: got {got:e}, required {want_v:e} (tol {tol:e})"));
+                    bad = Some(format!(
+                        "{name}: got {got:e}, required {want_v:e} (tol {tol:e})"
+                    ));
                 }
             };
             match cond {
@@ -452,7 +461,10 @@ pub fn run_spline_job_t<T: Fl>(job: &SplineJob, want: Want, out: &mut JobOut) {
             out.nontrivial += 1;
         }
     }
-    out.outcome(format!("built:{}", if periodic { "periodic" } else { "ends" }));
+    out.outcome(format!(
+        "built:{}",
+        if periodic { "periodic" } else { "ends" }
+    ));
     if out.sample.is_none() {
         out.sample = Some(Json::obj(vec![
             ("type", Json::str(T::NAME)),
@@ -486,12 +498,36 @@ pub fn case_json<T: Fl>(job: &SplineJob, lane: Option<&Lane>, cond: Option<Cond>
 pub fn spline_axes(quick: bool, n_min: usize) -> Vec<Axis> {
     let mut v = vec![];
     if quick {
-        v.extend(alpha::full_word_axes(&alpha::h3(), "w", n_min, 5, &alpha::OFFSETS));
+        v.extend(alpha::full_word_axes(
+            &alpha::h3(),
+            "w",
+            n_min,
+            5,
+            &alpha::OFFSETS,
+        ));
         v.extend(alpha::full_word_axes(&alpha::hw(), "W", n_min, 4, &[0.0]));
-        v.extend(alpha::long_word_axes(&alpha::h4(), "L", &[8, 12], 1, &[0.0]));
+        v.extend(alpha::long_word_axes(
+            &alpha::h4(),
+            "L",
+            &[8, 12],
+            1,
+            &[0.0],
+        ));
     } else {
-        v.extend(alpha::full_word_axes(&alpha::h4(), "w", n_min, 7, &alpha::OFFSETS));
-        v.extend(alpha::full_word_axes(&alpha::hw(), "W", n_min, 6, &[0.0, -3.0]));
+        v.extend(alpha::full_word_axes(
+            &alpha::h4(),
+            "w",
+            n_min,
+            7,
+            &alpha::OFFSETS,
+        ));
+        v.extend(alpha::full_word_axes(
+            &alpha::hw(),
+            "W",
+            n_min,
+            6,
+            &[0.0, -3.0],
+        ));
         v.extend(alpha::long_word_axes(
             &alpha::h4(),
             "L",
@@ -499,7 +535,13 @@ pub fn spline_axes(quick: bool, n_min: usize) -> Vec<Axis> {
             2,
             &[0.0],
         ));
-        v.extend(alpha::long_word_axes(&alpha::hw(), "LW", &[8, 12], 1, &[0.0]));
+        v.extend(alpha::long_word_axes(
+            &alpha::hw(),
+            "LW",
+            &[8, 12],
+            1,
+            &[0.0],
+        ));
     }
     v
 }
